@@ -143,17 +143,29 @@ P_C05(cfg, pre, e, post, g) ==
   /\ cfg.maxmem # 0 /\ ~e.panic /\ e.op \in {"get", "tick", "noins"} =>
        TotalSize(post) <= TotalSize(pre)
 
+\* a store that does not overflow (entry limit not reached, total size fits) loses no unexpired entry:
+\* an earlier stored result stays served (used by the C09 / C10 / C11 monitors for the results THEY say
+\* are stored; pre carries ghost ages)
+NoNeedlessLoss(cfg, pre, e, post) ==
+  ( /\ cfg.limit = 0 \/ Cardinality(Dom(pre) \cup {e.k}) <= cfg.limit
+    /\ cfg.maxmem = 0 \/ ~e.mem \/ SizeOf(pre, Dom(pre) \ {e.k}) + e.size <= cfg.maxmem )
+  => (Dom(pre) \ ExpiredKeys(cfg, pre)) \ {e.k} \subseteq Dom(post)
+
 -----------------------------------------------------------------------------
 (* C06: TTL                                                                 *)
 
 P_C06(cfg, pre, e, post, g) ==
-  cfg.ttl # 0 /\ e.op = "get" /\ e.k \in Dom(pre) =>
+  /\ cfg.ttl # 0 /\ e.op = "get" /\ e.k \in Dom(pre) =>
      LET a == pre.store[e.k].age IN
      /\ a >= cfg.ttl => /\ e.ret = None /\ e.k \notin Dom(post)
                         \* the purge concerns the expired entry only: no other stored key loses its
                         \* place in the eviction queue
                         /\ \A x \in Dom(post) : x \in SeqRange(pre.order) => x \in SeqRange(post.order)
      /\ a < (IF IsAsync(cfg) THEN cfg.ttl - 1 ELSE cfg.ttl) => e.ret = pre.store[e.k].val
+  \* "... so that it no longer occupies capacity": with a ttl configured, a store that the entries actually
+  \* present do not make overflow loses no unexpired entry (a purged entry has left nothing behind that
+  \* still counts against the limit)
+  /\ (cfg.ttl # 0 /\ e.op = "ins" /\ ~e.panic) => NoNeedlessLoss(cfg, pre, e, post)
 
 -----------------------------------------------------------------------------
 (* C07: FIFO / LRU victims: the evicted set is a prefix of the ghost order   *)
